@@ -794,8 +794,168 @@ def shrink_env(s):
             h2[hi] = "a"
             yield from emit(h2, ops)
 
+# ------------------------------------------------------------------ mode 4: the warning printed through the cache (coq/C18_ModelW.v)
+def is_warn(s):
+    return s.split()[0] == "4"
+
+
+def warn_split(s):
+    t = s.split()
+    ops, cur = [], []
+    for x in t[4:]:
+        if x.startswith(":") and cur:
+            ops.append(cur)
+            cur = []
+        cur.append(x)
+    if cur:
+        ops.append(cur)
+    return t[1:4], ops
+
+
+def warn_fmt(head, ops):
+    return ("4 " + " ".join(head) + " " + " ".join(" ".join(o) for o in ops)).strip()
+
+
+def wvalid(head, ops):
+    if int(head[1], 16) == 0:
+        return False
+    na, rel = 0, set()
+    for o in ops:
+        if o[0] == ":a":
+            na += 1
+        elif o[0] == ":d":
+            k = int(o[1], 16)
+            if k >= na or k in rel:
+                return False
+            rel.add(k)
+    return True
+
+
+W_FOREIGN = [0, 1, 20, 32, 33, 64, 65, 96, 97, 128, 129, 256, 257, 300, 1024]
+
+
+def exhaustive_warn():
+    out = []
+    # one foreign release of every class / non-cached size x the output's buffer before / after the installation, in every
+    # class (and non-cached), growing inside its class or across a boundary; then a second and a third foreign release
+    for pre in ("1", "0"):
+        for c0, g in ((16, 8), (30, 8), (60, 40), (120, 10), (250, 10), (300, 40), (1, 0)):
+            head = [pre, "%x" % c0, "%x" % g]
+            for n in W_FOREIGN:
+                out.append(warn_fmt(head, [[":f", "0", "%x" % n]]))
+            for n, m in ((20, 20), (20, 300), (300, 20), (300, 300), (100, 40)):
+                out.append(warn_fmt(head, [[":f", "0", "%x" % n], [":f", "1", "%x" % m]]))
+                out.append(warn_fmt(head, [[":f", "0", "%x" % n], [":f", "0", "%x" % n], [":f", "2", "%x" % m]]))
+                out.append(warn_fmt(head, [[":p"], [":f", "0", "%x" % n], [":f", "1", "%x" % m]]))
+                out.append(warn_fmt(head, [[":f", "0", "%x" % n], [":p"], [":f", "1", "%x" % m], [":p"]]))
+                out.append(warn_fmt(head, [[":a", "%x" % n], [":f", "0", "%x" % m], [":d", "0"], [":f", "1", "%x" % n]]))
+                out.append(warn_fmt(head, [[":a", "%x" % n], [":a", "%x" % m], [":d", "0"], [":f", "0", "%x" % m], [":a", "%x" % n], [":p"]]))
+            out.append(warn_fmt(head, []))
+            out.append(warn_fmt(head, [[":p"]]))
+            out.append(warn_fmt(head, [[":p"], [":p"], [":p"]]))
+    return out
+
+
+def gen_warn(rng, budget):
+    pre = rng.choice(["1", "1", "0"])
+    c0 = rng.choice([1, 16, 31, 32, 33, 60, 64, 100, 128, 200, 250, 256, 257, 300, 600]) if rng.random() < 0.7 else rng.randrange(1, 700)
+    g = rng.choice([0, 1, 8, 30, 40, 100, 300]) if rng.random() < 0.8 else rng.randrange(0, 120)
+    ops, na, rel = [], 0, set()
+    first_f = rng.random() < 0.5      # a foreign release early (the warning is drawn by the test) or late (maybe by a print)
+    for i in range(rng.randrange(1, budget + 1)):
+        r = rng.random()
+        if (first_f and i == 0) or r < 0.30:
+            n = rng.choice(W_FOREIGN) if rng.random() < 0.8 else rng.randrange(0, 1100)
+            ops.append([":f", "%x" % rng.randrange(0, 8), "%x" % n])
+        elif r < 0.55:
+            n = rng.choice(EDGE) if rng.random() < 0.6 else rng.randrange(0, 1100)
+            ops.append([":a", "%x" % n])
+            na += 1
+        elif r < 0.75 and na > len(rel):
+            k = rng.choice([k for k in range(na) if k not in rel])
+            rel.add(k)
+            ops.append([":d", "%x" % k])
+        else:
+            ops.append([":p"])
+    return warn_fmt([pre, "%x" % c0, "%x" % g], ops)
+
+
+def classify_warn(s):
+    head, ops = warn_split(s)
+    lab = ["mode:warning-printed-through-the-cache", "output-buffer:" + ("foreign(before the cache)" if head[0] != "0" else "from the cache")]
+    c0 = int(head[1], 16)
+    lab.append("output-buffer-size:" + ("non-cached" if c0 > BOUND else "class %d" % cls(c0)))
+    nf = sum(1 for o in ops if o[0] == ":f")
+    lab.append("foreign releases by the test:" + ("0" if nf == 0 else "1" if nf == 1 else "2" if nf == 2 else ">2"))
+    for o in ops:
+        if o[0] == ":f":
+            n = int(o[2], 16)
+            lab.append("foreign size:" + ("non-cached" if n > BOUND else "class %d" % cls(n)))
+    kinds = [o[0] for o in ops if o[0] in (":f", ":p")]
+    if kinds:
+        if head[0] != "0" and kinds[0] == ":p":
+            lab.append("warning drawn by the release a PRINT makes (nested print)")
+        elif ":f" in kinds:
+            lab.append("warning drawn by the test's release" + (", print releases the foreign buffer" if head[0] != "0" and kinds[0] == ":f" else ""))
+    if ":p" in kinds:
+        lab.append("test prints")
+    return lab
+
+
+def signature_warn(s, o):
+    try:
+        t = o.split()
+        if ":x" not in t:
+            return "warning mode: malformed observation"
+        d, p = int(t[-2], 16), int(t[-1], 16)
+        if d >= 3:
+            return "warning mode: printing nested 3 deep (unbounded recursion cut off)"
+        nw = 0
+        for it in items(" ".join(t[:t.index(":x")])):
+            if it[-1] == "1":
+                nw += 1
+        if nw > 1:
+            return "warning mode: %d warnings" % nw
+        return "warning mode: books / calls differ (prints %d, depth %d)" % (p, d)
+    except Exception:
+        return "warning mode: malformed observation"
+
+
+def shrink_warn(s):
+    head, ops = warn_split(s)
+    for i in range(len(ops) - 1, -1, -1):
+        if ops[i][0] != ":a":
+            new = ops[:i] + ops[i + 1:]
+        else:
+            k = sum(1 for o in ops[:i] if o[0] == ":a")
+            new = []
+            for j, o in enumerate(ops):
+                if j == i:
+                    continue
+                if o[0] == ":d":
+                    kk = int(o[1], 16)
+                    if kk == k:
+                        continue
+                    if kk > k:
+                        o = [":d", "%x" % (kk - 1)]
+                new.append(o)
+        if wvalid(head, new):
+            yield warn_fmt(head, new)
+    for c0, g in ((0x28, 0x1e), (0x10, 8), (1, 0)):
+        h = [head[0], "%x" % c0, "%x" % g]
+        if h != head:
+            yield warn_fmt(h, ops)
+    for i, o in enumerate(ops):
+        if o[0] == ":f" and (o[1] != "0" or o[2] != "14"):
+            yield warn_fmt(head, ops[:i] + [[":f", "0", "14"]] + ops[i + 1:])
+        if o[0] == ":a" and o[1] != "14":
+            yield warn_fmt(head, ops[:i] + [[":a", "14"]] + ops[i + 1:])
+
+
 def generate(tier, rng):
-    out = exhaustive() + exhaustive_installed() + exhaustive_env()
+    out = exhaustive() + exhaustive_installed() + exhaustive_env() + exhaustive_warn()
+    for _ in range(600 if tier == "quick" else 30000):
+        out.append(gen_warn(rng, rng.choice([3, 6, 12, 25])))
     if tier == "quick":
         plan = [(900, 1, 14), (500, 10, 40), (60, 60, 300)]
     else:
@@ -832,6 +992,9 @@ def is_env(s):
 
 
 def nontrivial(s):
+    if is_warn(s):
+        _, wops = warn_split(s)
+        return any(o[0] in (":f", ":p") for o in wops)
     if is_env(s):
         _, eops = env_split(s)
         return any(o[0] in (":gi", ":ci") for o in eops) and any(o[0] in (":a", ":s") for o in eops)
@@ -940,6 +1103,8 @@ def classify_installed(s):
 
 
 def classify(s):
+    if is_warn(s):
+        return classify_warn(s)
     if is_env(s):
         return classify_env(s)
     if is_installed(s):
@@ -976,6 +1141,8 @@ def signature(s, o):
     """coarse: the kind of the first operation whose observation departs from the textbook cache"""
     if o.startswith("!"):
         return "crash " + o[:70]
+    if is_warn(s):
+        return signature_warn(s, o)
     if is_env(s):
         return signature_env(s, o)
     if is_installed(s):
@@ -1098,6 +1265,9 @@ def fmt(via, ops):
 
 
 def shrink(s):
+    if is_warn(s):
+        yield from shrink_warn(s)
+        return
     if is_env(s):
         yield from shrink_env(s)
         return
